@@ -6,7 +6,12 @@ Parses the Python source with `ast` (never imports it) and renders
  * the comparison in can_write, the length test and the boolean condition of can_read (as a Lean
    expression over the three library and the three file version components),
  * the mode dispatch of File._check_header (which gate function runs for which mode letter),
-   the format test, and the id threshold tuple with its comparison operator.
+   the format test, and the id threshold tuple with its comparison operator,
+ * the shape of File.__init__: the default of `mode` (also of File.open, and that open hands it on), the guards in
+   front of the open (condition over mode / os.path.exists / isfile / getsize == 0, whether the mode is validated
+   first, the exception), the create-or-open condition, the letter the create branch rebinds `mode` to, that the
+   create branch calls h5f.create and the open branch h5f.open with flags=map_file_mode(mode) outside any `try`,
+   and the ordered tail (_check_header, mode, data / metadata groups, created_at / updated_at).
 Anything it does not recognise raises ExtractError (a broken tie, handled by the check).
 """
 import ast
@@ -158,6 +163,241 @@ def _int_expr(n, env, fname):
         if base:
             return "%s%d" % (base, n.slice.value)
     raise ExtractError("%s: unsupported operand %s" % (fname, ast.dump(n)[:60]))
+
+
+# ---- File.__init__ -----------------------------------------------------------------------
+
+EXC = {"RuntimeError": ".runtimeError", "InvalidFile": ".invalidFile", "ValueError": ".valueError",
+       "TypeError": ".typeError", "KeyError": ".keyError"}
+
+
+def _is_call_path(n, dotted, argname):
+    """`os.path.exists(path)` and friends"""
+    if not (isinstance(n, ast.Call) and len(n.args) == 1 and not n.keywords and _is_name(n.args[0], argname)):
+        return False
+    parts = []
+    f = n.func
+    while isinstance(f, ast.Attribute):
+        parts.append(f.attr)
+        f = f.value
+    if not isinstance(f, ast.Name):
+        return False
+    parts.append(f.id)
+    return ".".join(reversed(parts)) == dotted
+
+
+def _init_cond(n, mpar, ppar):
+    """condition of File.__init__ over mode and the path's state -> Lean Bool term over mode ex isf emp"""
+    if isinstance(n, ast.BoolOp):
+        op = " && " if isinstance(n.op, ast.And) else " || "
+        return "(" + op.join(_init_cond(v, mpar, ppar) for v in n.values) + ")"
+    if isinstance(n, ast.UnaryOp) and isinstance(n.op, ast.Not):
+        return "(!" + _init_cond(n.operand, mpar, ppar) + ")"
+    if _is_call_path(n, "os.path.exists", ppar):
+        return "ex"
+    if _is_call_path(n, "os.path.isfile", ppar):
+        return "isf"
+    if isinstance(n, ast.Compare) and len(n.ops) == 1 and type(n.ops[0]) in (ast.Eq, ast.NotEq):
+        l, r = n.left, n.comparators[0]
+        neg = isinstance(n.ops[0], ast.NotEq)
+        for a, b in ((l, r), (r, l)):
+            if _is_name(a, mpar) and _filemode_attr(b):
+                return "decide (mode %s %s)" % ("≠" if neg else "=", MODE_DEF[_filemode_attr(b)])
+            if _is_call_path(a, "os.path.getsize", ppar) and isinstance(b, ast.Constant) and b.value == 0 \
+                    and type(b.value) is int:
+                return "(!emp)" if neg else "emp"
+    raise ExtractError("File.__init__: unsupported condition %s" % ast.dump(n)[:80])
+
+
+def _has_node(stmts, kinds):
+    for st in stmts:
+        for sub in ast.walk(st):
+            if isinstance(sub, kinds):
+                return True
+    return False
+
+
+def _self_call(st, slf, name):
+    """`self.<name>(...)` as an expression statement -> the Call node"""
+    if isinstance(st, ast.Expr) and isinstance(st.value, ast.Call) and isinstance(st.value.func, ast.Attribute) \
+            and st.value.func.attr == name and _is_name(st.value.func.value, slf):
+        return st.value
+    return None
+
+
+def _map_mode_assign(st, mpar):
+    """`<v> = map_file_mode(mode)` -> v"""
+    if isinstance(st, ast.Assign) and len(st.targets) == 1 and isinstance(st.targets[0], ast.Name) \
+            and isinstance(st.value, ast.Call) and _is_name(st.value.func, "map_file_mode") \
+            and len(st.value.args) == 1 and _is_name(st.value.args[0], mpar) and not st.value.keywords:
+        return st.targets[0].id
+    return None
+
+
+def _h5f_call(st, which, ppar, flagvar):
+    """`<v> = h5py.h5f.<which>(path, flags=<flagvar>, ...)` -> v"""
+    if not (isinstance(st, ast.Assign) and len(st.targets) == 1 and isinstance(st.targets[0], ast.Name)
+            and isinstance(st.value, ast.Call)):
+        return None
+    c = st.value
+    f = c.func
+    if not (isinstance(f, ast.Attribute) and f.attr == which and isinstance(f.value, ast.Attribute)
+            and f.value.attr == "h5f" and _is_name(f.value.value, "h5py")):
+        return None
+    if not (len(c.args) >= 1 and _is_name(c.args[0], ppar)):
+        return None
+    flags = [k.value for k in c.keywords if k.arg == "flags"] + list(c.args[1:2])
+    if len(flags) != 1 or not _is_name(flags[0], flagvar):
+        return None
+    return st.targets[0].id
+
+
+def _default_mode(fn, where):
+    args = fn.args.args
+    names = [a.arg for a in args]
+    if "mode" not in names:
+        raise ExtractError("%s has no parameter `mode`" % where)
+    i = names.index("mode")
+    k = i - (len(args) - len(fn.args.defaults))
+    if k < 0:
+        raise ExtractError("%s: `mode` has no default" % where)
+    d = _filemode_attr(fn.args.defaults[k])
+    if d is None:
+        raise ExtractError("%s: the default of `mode` is not a FileMode member" % where)
+    return i, MODE_DEF[d]
+
+
+def _extract_init(cls):
+    fn = _func(cls.body, "__init__", "class File")
+    slf = fn.args.args[0].arg
+    ipos, default_init = _default_mode(fn, "File.__init__")
+    if ipos != 2 or fn.args.args[1].arg != "path":
+        raise ExtractError("File.__init__: expected (self, path, mode, ...)")
+    mpar, ppar = "mode", "path"
+    body = _strip_doc(fn.body)
+    # the path encoding try
+    k = 0
+    if body and isinstance(body[0], ast.Try):
+        t = body[0]
+        ok = (len(t.body) == 1 and isinstance(t.body[0], ast.Assign) and _is_name(t.body[0].targets[0], ppar)
+              and not _has_node(t.body + t.handlers + t.orelse + t.finalbody, (ast.Raise,))
+              and all(len(h.body) == 1 and isinstance(h.body[0], ast.Pass) for h in t.handlers)
+              and not t.orelse and not t.finalbody)
+        call = t.body[0].value if ok else None
+        ok = ok and isinstance(call, ast.Call) and isinstance(call.func, ast.Attribute) and call.func.attr == "encode" \
+            and _is_name(call.func.value, ppar)
+        if not ok:
+            raise ExtractError("File.__init__: the leading try is not the path encoding")
+        k = 1
+    # guards: `if C: [map_file_mode(mode)]; raise E`
+    guards = []
+    while k < len(body) and isinstance(body[k], ast.If) and not body[k].orelse \
+            and isinstance(body[k].body[-1], ast.Raise):
+        g = body[k]
+        pre = g.body[:-1]
+        validates = False
+        if pre:
+            if not (len(pre) == 1 and isinstance(pre[0], ast.Expr) and isinstance(pre[0].value, ast.Call)
+                    and _is_name(pre[0].value.func, "map_file_mode") and len(pre[0].value.args) == 1
+                    and _is_name(pre[0].value.args[0], mpar)):
+                raise ExtractError("File.__init__: a guard does more than validate the mode and raise")
+            validates = True
+        e = g.body[-1].exc
+        if isinstance(e, ast.Call):
+            e = e.func
+        if not (isinstance(e, ast.Name) and e.id in EXC):
+            raise ExtractError("File.__init__: a guard raises an exception class that is not modelled")
+        guards.append((_init_cond(g.test, mpar, ppar), validates, EXC[e.id]))
+        k += 1
+    # create or open
+    if not (k < len(body) and isinstance(body[k], ast.If) and body[k].orelse):
+        raise ExtractError("File.__init__: the create-or-open `if ... else` does not follow the guards")
+    co = body[k]
+    if _has_node([co], (ast.Try, ast.While, ast.For, ast.With)):
+        raise ExtractError("File.__init__: try / loop / with inside the create-or-open statement")
+    create_cond = _init_cond(co.test, mpar, ppar)
+    cb = co.body
+    if not (len(cb) >= 3 and isinstance(cb[0], ast.Assign) and len(cb[0].targets) == 1 and _is_name(cb[0].targets[0], mpar)
+            and _filemode_attr(cb[0].value)):
+        raise ExtractError("File.__init__: the create branch does not start with `mode = FileMode.<X>`")
+    create_mode = MODE_DEF[_filemode_attr(cb[0].value)]
+    fv = _map_mode_assign(cb[1], mpar)
+    if fv is None or _h5f_call(cb[2], "create", ppar, fv) is None:
+        raise ExtractError("File.__init__: the create branch is not `h5mode = map_file_mode(mode); "
+                           "fid = h5py.h5f.create(path, flags=h5mode, ...)`")
+    if not any(_self_call(st, slf, "_create_header") is not None for st in cb[3:]):
+        raise ExtractError("File.__init__: the create branch does not call self._create_header()")
+    for st in cb[3:]:
+        if _self_call(st, slf, "_create_header") is None and not isinstance(st, ast.Assign):
+            raise ExtractError("File.__init__: unexpected statement in the create branch")
+    ob = co.orelse
+    fv = _map_mode_assign(ob[0], mpar) if ob else None
+    if fv is None or len(ob) < 2 or _h5f_call(ob[1], "open", ppar, fv) is None:
+        raise ExtractError("File.__init__: the open branch is not `h5mode = map_file_mode(mode); "
+                           "fid = h5py.h5f.open(path, flags=h5mode, ...)`")
+    for st in ob[2:]:
+        if not isinstance(st, ast.Assign) or _has_node([st], (ast.Name,)) and any(
+                isinstance(x, ast.Name) and x.id == mpar for x in ast.walk(st)):
+            raise ExtractError("File.__init__: unexpected statement in the open branch")
+    # tail
+    tail = []
+    for st in body[k + 1:]:
+        if _self_call(st, slf, "_check_header") is not None:
+            c = _self_call(st, slf, "_check_header")
+            if not (len(c.args) == 1 and _is_name(c.args[0], mpar)):
+                raise ExtractError("File.__init__: _check_header is not called with the mode")
+            tail.append(".checkHeader")
+            continue
+        if isinstance(st, ast.Assign) and len(st.targets) == 1 and isinstance(st.targets[0], ast.Attribute) \
+                and _is_name(st.targets[0].value, slf):
+            tgt = st.targets[0].attr
+            v = st.value
+            if tgt == "mode":
+                if not _is_name(v, mpar):
+                    raise ExtractError("File.__init__: self.mode is not assigned the mode")
+                tail.append(".setMode")
+                continue
+            if isinstance(v, ast.Call) and isinstance(v.func, ast.Attribute) and v.func.attr == "open_group":
+                nm = v.args[0].value if (v.args and isinstance(v.args[0], ast.Constant)) else None
+                cr = [kw for kw in v.keywords if kw.arg == "create" and isinstance(kw.value, ast.Constant)
+                      and kw.value.value is True]
+                if nm not in ("data", "metadata") or not cr:
+                    raise ExtractError("File.__init__: open_group call is not (\"data\"|\"metadata\", create=True)")
+                tail.append(".ensureData" if nm == "data" else ".ensureMeta")
+                continue
+            if not _has_node([v], (ast.Call,)):
+                continue
+            raise ExtractError("File.__init__: unexpected call in the tail: %s" % ast.dump(v)[:80])
+        if isinstance(st, ast.If) and not st.orelse and len(st.body) == 1:
+            t = st.test
+            if isinstance(t, ast.Compare) and len(t.ops) == 1 and isinstance(t.ops[0], ast.NotIn) \
+                    and isinstance(t.left, ast.Constant) and t.left.value in ("created_at", "updated_at"):
+                want = "force_" + t.left.value
+                c = _self_call(st.body[0], slf, want)
+                if c is None or c.args or c.keywords:
+                    raise ExtractError("File.__init__: `if \"%s\" not in ...` does not call self.%s()" % (t.left.value, want))
+                tail.append(".ensureCreated" if t.left.value == "created_at" else ".ensureUpdated")
+                continue
+            if not _has_node(st.body, (ast.Call, ast.Raise)) and not _has_node([t], (ast.Call,)):
+                continue
+        raise ExtractError("File.__init__: unexpected statement in the tail (line %d)" % st.lineno)
+    if _has_node(body[k + 1:], (ast.Try,)):
+        raise ExtractError("File.__init__: try in the tail")
+    # File.open
+    op = _func(cls.body, "open", "class File")
+    opos, default_open = _default_mode(op, "File.open")
+    ret = [st for st in op.body if isinstance(st, ast.Return)]
+    ok = len(ret) == 1 and isinstance(ret[0].value, ast.Call) and _is_name(ret[0].value.func, op.args.args[0].arg)
+    if ok:
+        c = ret[0].value
+        passed = (len(c.args) >= 2 and _is_name(c.args[0], "path") and _is_name(c.args[1], "mode")) or \
+            any(kw.arg == "mode" and _is_name(kw.value, "mode") for kw in c.keywords)
+        ok = passed and not any(isinstance(x, (ast.Assign, ast.AugAssign)) and any(
+            _is_name(t, "mode") for t in getattr(x, "targets", [getattr(x, "target", None)])) for x in ast.walk(op))
+    if not ok:
+        raise ExtractError("File.open does not hand its `mode` on to File.__init__ unchanged")
+    return {"default_init": default_init, "default_open": default_open, "guards": guards,
+            "create_cond": create_cond, "create_mode": create_mode, "tail": tail}
 
 
 def extract(repo):
@@ -327,9 +567,12 @@ def extract(repo):
     if not ok:
         raise ExtractError("_check_header: id test is not `if not util.is_uuid(self.id): raise RuntimeError`")
 
+    init = _extract_init(cls)
+
     # ---- render ------------------------------------------------------------------------
     L = []
     L.append("/- GENERATED by harness/extract/fileconst.py from nixio/file.py — do not edit. -/")
+    L.append("import NixModel.Basic")
     L.append("set_option linter.unusedVariables false")
     L.append("namespace Nix.Gen.Format")
     L.append("")
@@ -365,6 +608,25 @@ def extract(repo):
     L.append("/-- `_check_header`: `self.version <cmp> idThreshold` ⇒ the file id must be a UUID -/")
     L.append("def idThreshold : List Int := " + lean_list(lean_int(i) for i in thr))
     L.append("def idThresholdCmp : Cmp := " + thr_cmp)
+    L.append("")
+    L.append("/-! ### the shape of `File.__init__` / `File.open` -/")
+    L.append("/-- default of the parameter `mode` -/")
+    L.append("def defaultModeInit : List Char := " + init["default_init"])
+    L.append("def defaultModeOpen : List Char := " + init["default_open"])
+    L.append("/-- the guards in front of the open, in source order: condition over the mode and the state of the path")
+    L.append("(`os.path.exists`, `os.path.isfile`, `os.path.getsize == 0`), whether `map_file_mode(mode)` is evaluated")
+    L.append("before the raise, the exception class -/")
+    L.append("def initGuards : List ((List Char → Bool → Bool → Bool → Bool) × Bool × Nix.Err) := " + lean_list(
+        "(fun mode ex isf emp => %s, %s, %s)" % (c, "true" if v else "false", e) for c, v, e in init["guards"]))
+    L.append("/-- the condition of the create-or-open statement: true ⇒ `h5f.create`, false ⇒ `h5f.open`, both with")
+    L.append("`flags=map_file_mode(mode)` and outside any `try` -/")
+    L.append("def initCreateCond (mode : List Char) (ex isf emp : Bool) : Bool := " + init["create_cond"])
+    L.append("/-- the create branch rebinds `mode` to this letter first -/")
+    L.append("def initCreateMode : List Char := " + init["create_mode"])
+    L.append("/-- what follows the create-or-open statement, in source order -/")
+    L.append("inductive InitStep where | checkHeader | setMode | ensureData | ensureMeta | ensureCreated | ensureUpdated")
+    L.append("  deriving DecidableEq, Repr")
+    L.append("def initTail : List InitStep := " + lean_list(init["tail"]))
     L.append("")
     L.append("end Nix.Gen.Format")
     L.append("")
